@@ -8,7 +8,7 @@ F7 = ["re", "im", "inc", "coh", "abs", "incxs", "pen"]
 def parts_of(f):
     ps = []
     for at, n in f.atoms.items():
-        p = {"n": dec.to_dec(n), "m": dec.to_dec(at.mass), "atom": list(key(at))}
+        p = {"n": dec.to_dec(n), "m": dec.to_dec(at.mass), "atom": list(key(at)), "mnat": dec.to_dec(_natural(at).mass)}
         nt = at.neutron
         if not nt.has_sld():
             p["kind"] = "nodata"
@@ -26,6 +26,14 @@ def parts_of(f):
                 p["kind"] = "nototal"
         ps.append(p)
     return ps
+
+
+def _natural(at):
+    """the atom of natural abundance with the same charge (table lookup, not Formula.natural_mass_ratio)"""
+    from .formexec import _owner_name
+    z, a, q = key(at)
+    el = _tab(_owner_name(at))[z]
+    return el.ion[q] if q else el
 
 
 def out7(res, i=None):
@@ -52,6 +60,8 @@ def observe(arg):
     out = []
     for t in arg["items"]:
         T = t.get("T")
+        if T and "neutron" not in _tab(T).properties:
+            nsf.init(_tab(T))          # a private table has neutron data only after nsf.init
         try:
             kind = t["kind"]
             if kind == "scat":
@@ -107,7 +117,12 @@ def _wl(t):
         return {"energy": np.array(E) if isinstance(E, list) else E}, [(float(nsf.neutron_wavelength(x)), x) for x in Es], isinstance(E, list)
     w = t["wavelength"]
     ws = w if isinstance(w, list) else [w]
-    return {"wavelength": np.array(w) if isinstance(w, list) else w}, [(x, None) for x in ws], isinstance(w, list)
+    arg = w
+    if isinstance(w, list) and t.get("wform", "array") == "array":
+        arg = np.array(w)          # dtype follows the values: a list of ints gives an integer array
+    elif isinstance(w, list) and t["wform"] == "tuple":
+        arg = tuple(w)
+    return {"wavelength": arg}, [(x, None) for x in ws], isinstance(w, list)
 
 
 def _scat(t, T):
@@ -115,16 +130,30 @@ def _scat(t, T):
     g, kw = _formula(t, T)
     wkw, lams, vec = _wl(t)
     ps = parts_of(g)
+    via = t.get("via", "formula")
     try:
-        res = P.neutron_scattering(g, density=g.density, **wkw) if t.get("via", "formula") == "formula" else \
-            P.neutron_scattering(build(t["compound"], T), **dict(kw, **wkw))
+        if via == "formula":        # the density is resolved by formula(), the calculator gets density=
+            res = P.neutron_scattering(g, density=g.density, **wkw)
+        elif via == "carried":      # a Formula that already carries another density; the keyword must win
+            f0 = P.formula(build(t["compound"], T), density=t["carried"])
+            res = P.neutron_scattering(f0, **dict(kw, **wkw))
+        elif via == "carried-own":  # a Formula that carries the density, no keyword
+            res = P.neutron_scattering(g, **wkw)
+        else:                       # "kw": Formula without density, density / natural_density as keyword of the calculator
+            res = P.neutron_scattering(build(t["compound"], T), **dict(kw, **wkw))
     except Exception as e:
         return [{"ev": "harness_exc", "id": t["id"], "exc": "neutron_scattering raised %s: %s" % (type(e).__name__, str(e)[:100])}]
     evs = []
     for i, (lam, E) in enumerate(lams):
-        ev = {"ev": "scat", "id": "%s#%d" % (t["id"], i) if vec else t["id"], "ps": ps,
-              "rho": dec.to_dec(g.density if g.density is not None else 0), "lam": dec.to_dec(lam),
+        ev = {"ev": "scat", "id": "%s#%d" % (t["id"], i) if vec else t["id"], "ps": ps, "lam": dec.to_dec(lam),
               "out": out7(res, i if vec else None)}
+        if "natural_density" in t:
+            ev["nd"] = dec.to_dec(t["natural_density"])      # the specification converts it with the natural masses
+            ev["rho"] = dec.to_dec(0)
+        elif "density" in t:
+            ev["rho"] = dec.to_dec(t["density"])
+        else:
+            ev["rho"] = dec.to_dec(g.density if g.density is not None else 0)
         if E is not None:
             ev["E"] = dec.to_dec(E)
         evs.append(ev)
